@@ -632,6 +632,9 @@ def classify(rep, ctx, files, ops, ctoks, crash, label, allow_input=True, allow_
     if (fails and not allow_input) or (not fails and not allow_corr):
         return False
     replay = replay_dict(files, ops, ctoks, mtoks, crash)
+    # a failure on a history where the faithful model of the current code satisfies the oracle is a NEW deviation of the
+    # library: such reports are listed first
+    ctx.fresh_deviation = bool(fails) and not same and not oracle(files, ops, mtoks)
     if fails:
         i, msg = fails[0]
         # is this exactly the behaviour of a recorded, still open defect?  (the faithful model reproduces the library's
@@ -763,6 +766,8 @@ def run(rep, tier, seed, replay=None):
     files = Files(fdir)
     ctx.open = {f["match"]: "%s: %s" % (f["match"], f.get("what", "")) for f in vlib.known_findings("C12")}
     ctx.nshrunk = 0
+    ctx.vkeys = {}
+    ctx.fresh_deviation = False
     ctx.known_hits = collections.Counter()
     ctx.known_examples = collections.defaultdict(list)
 
@@ -818,10 +823,11 @@ def run(rep, tier, seed, replay=None):
             elif t.startswith("rc=-"): feat["loads_reporting_an_error"] += 1
         if idx % 97 == 0:
             rep.sample({"history": hist_line(ops)[:300], "impl": " ".join(ctoks)[:300], "model": " ".join(mt)[:300]})
-        # at most 12 reports with a failing input and 4 correspondence-only reports
-        if (nviol < 12 or ncorr < 4):
+        # at most 30 reports with a failing input and 4 correspondence-only reports (the framework prints the first five)
+        if (nviol < 30 or ncorr < 4):
             before = len(rep.violations)
-            if classify(rep, ctx, files, ops, ctoks, crash, mt, allow_input=nviol < 12, allow_corr=ncorr < 4) and len(rep.violations) > before:
+            if classify(rep, ctx, files, ops, ctoks, crash, mt, allow_input=nviol < 30, allow_corr=ncorr < 4) and len(rep.violations) > before:
+                ctx.vkeys[rep.violations[-1][0]] = (rep.violations[-1][2], not ctx.fresh_deviation)
                 if rep.violations[-1][2]:
                     ncorr += 1
                 else:
@@ -841,7 +847,8 @@ def run(rep, tier, seed, replay=None):
     for d, ex in ctx.known_examples.items():
         for e in ex:
             feat["known_finding_hits_" + MATCH[d]] = ctx.known_hits[d]
-    rep.violations.sort(key=lambda v: v[2])          # reports with a concrete failing input first
+    # reports with a concrete failing input first, among them those the model of the current code does not share
+    rep.violations.sort(key=lambda v: ctx.vkeys.get(v[0], (v[2], False)))
     if not proved and not rep.violations:
         rep.violation("C12: proof obligations no longer check (see log) and no failing input was found by the correspondence run",
                       getattr(rep, "proof_broken", {}), no_input=True)
